@@ -5,6 +5,9 @@ CONSTANTS
   LineMax = 20479
   AlphaOf <- AlphaMC
   Sc <- ScMC
+  LineOf <- LineMC
+  FixedLen <- FixedLenMC
+  FixedLine <- FixedLineMC
   Obs <- ObsEmit
 INVARIANTS IndexBelowCapacity IndicesMirrorStacks DeliveredOnceInOrder BeginEndPaired InnermostContext UnknownFallsToNull StateThreaded StacksRestored
 CHECK_DEADLOCK FALSE
